@@ -34,7 +34,7 @@ func init() {
 	register(&Rule{
 		ID:    "ORD-1",
 		Doc:   "in Layout, monitor.Set(x) is followed in the same block, with no call in between, by `defer monitor.Reset()`; Set has no other call site in the module; Reset stores nil/zero into all monitor globals and those stores depend on nothing but the m != nil guard",
-		Floor: 4,
+		Floor: 2,
 		Ctl:   []string{"ROOT__ord1.go.txt"},
 		Run:   runOrd1,
 	})
@@ -67,6 +67,62 @@ func (m *Model) monitorGlobal() *ssa.Global {
 		}
 	}
 	return out
+}
+
+// monitorCell: where the installed monitor lives - the interface-typed global of package monitor (field -1), or the one
+// interface-typed field of a struct-typed global of that package (`var current state`).
+func (m *Model) monitorCell() (*ssa.Global, int) {
+	if g := m.monitorGlobal(); g != nil {
+		return g, -1
+	}
+	sp := m.SSAPkg[modPath+"/internal/monitor"]
+	if sp == nil {
+		return nil, -1
+	}
+	var names []string
+	for n := range sp.Members {
+		names = append(names, n)
+	}
+	sort.Strings(names)
+	for _, n := range names {
+		g, ok := sp.Members[n].(*ssa.Global)
+		if !ok || strings.HasPrefix(n, "init$") {
+			continue
+		}
+		st, ok := g.Type().(*types.Pointer).Elem().Underlying().(*types.Struct)
+		if !ok {
+			continue
+		}
+		idx, cnt := -1, 0
+		for i := 0; i < st.NumFields(); i++ {
+			if types.IsInterface(st.Field(i).Type()) {
+				idx = i
+				cnt++
+			}
+		}
+		if cnt == 1 {
+			return g, idx
+		}
+	}
+	return nil, -1
+}
+
+// isMonitorCellAddr / isMonitorCellLoad: the address of the monitor cell, a load of it
+func (m *Model) isMonitorCellAddr(a ssa.Value) bool {
+	g, fi := m.monitorCell()
+	if g == nil {
+		return false
+	}
+	if fi < 0 {
+		return a == ssa.Value(g)
+	}
+	fa, ok := a.(*ssa.FieldAddr)
+	return ok && fa.X == ssa.Value(g) && fa.Field == fi
+}
+
+func (m *Model) isMonitorCellLoad(v ssa.Value) bool {
+	u, ok := v.(*ssa.UnOp)
+	return ok && u.Op == token.MUL && m.isMonitorCellAddr(u.X)
 }
 
 func globName(g *ssa.Global) string { return shortPkg(g.Pkg.Pkg.Path()) + "." + g.Name() }
@@ -192,15 +248,7 @@ func runGlob1(m *Model, r *RuleResult) {
 			}
 		})
 	}
-	monVar := m.monitorGlobal()
-	isMonGlobalLoad := func(v ssa.Value) bool {
-		u, ok := v.(*ssa.UnOp)
-		if !ok || u.Op != token.MUL {
-			return false
-		}
-		g, ok := u.X.(*ssa.Global)
-		return ok && g == monVar
-	}
+	isMonGlobalLoad := m.isMonitorCellLoad
 	for _, v := range gvs {
 		key := shortPkg(v.pkg) + "." + v.name
 		if !m.Prod[v.pkg] && !v.ctl {
@@ -251,7 +299,7 @@ func runGlob1(m *Model, r *RuleResult) {
 			stored := map[ssa.Value]bool{}
 			eachInstr(fn, func(in ssa.Instruction) {
 				if s, ok := in.(*ssa.Store); ok {
-					if gg, ok := s.Addr.(*ssa.Global); ok && gg == monVar {
+					if m.isMonitorCellAddr(s.Addr) {
 						stored[s.Val] = true
 					}
 				}
@@ -689,7 +737,6 @@ func runOrd1(m *Model, r *RuleResult) {
 		})
 	}
 	// Reset clears all globals of package monitor under the m != nil guard only
-	monVar := m.monitorGlobal()
 	sp := m.SSAPkg[monPkg]
 	var names []string
 	for n, mem := range sp.Members {
@@ -721,11 +768,9 @@ func runOrd1(m *Model, r *RuleResult) {
 			bo, ok := d.If.Cond.(*ssa.BinOp)
 			good := false
 			if ok && ((bo.Op == token.NEQ && d.Branch == 0) || (bo.Op == token.EQL && d.Branch == 1)) {
-				if u, ok := bo.X.(*ssa.UnOp); ok && u.Op == token.MUL {
-					if gg, ok := u.X.(*ssa.Global); ok && gg == monVar {
-						if c, ok := bo.Y.(*ssa.Const); ok && c.Value == nil {
-							good = true
-						}
+				if m.isMonitorCellLoad(bo.X) {
+					if c, ok := bo.Y.(*ssa.Const); ok && c.Value == nil {
+						good = true
 					}
 				}
 			}
